@@ -2,6 +2,7 @@ package snowflake_proxy
 
 import (
 	"fmt"
+	"sync"
 	"time"
 )
 
@@ -28,61 +29,53 @@ func (b bytesNullLogger) ThroughputSummary() string { return "" }
 
 func (b bytesNullLogger) GetStat() (in int, out int) { return -1, -1 }
 
-// bytesSyncLogger uses channels to safely log from multiple sources with output
-// occuring at reasonable intervals.
+// bytesSyncLogger counts the traffic of one connection. It is used from
+// several goroutines (data channel callbacks, the copy loop), so the counters
+// are guarded by a mutex: what GetStat and ThroughputSummary report is exactly
+// what has been added so far.
 type bytesSyncLogger struct {
-	outboundChan, inboundChan              chan int
+	lock                                   sync.Mutex
 	outbound, inbound, outEvents, inEvents int
 	start                                  time.Time
 }
 
-// newBytesSyncLogger returns a new bytesSyncLogger and starts it loggin.
+// newBytesSyncLogger returns a new bytesSyncLogger.
 func newBytesSyncLogger() *bytesSyncLogger {
-	b := &bytesSyncLogger{
-		outboundChan: make(chan int, 5),
-		inboundChan:  make(chan int, 5),
-	}
-	go b.log()
-	b.start = time.Now()
-	return b
-}
-
-func (b *bytesSyncLogger) log() {
-	for {
-		select {
-		case amount := <-b.outboundChan:
-			b.outbound += amount
-			b.outEvents++
-		case amount := <-b.inboundChan:
-			b.inbound += amount
-			b.inEvents++
-		}
-	}
+	return &bytesSyncLogger{start: time.Now()}
 }
 
 // AddOutbound add a number of bytes to the outbound total reported by the logger
 func (b *bytesSyncLogger) AddOutbound(amount int) {
-	b.outboundChan <- amount
+	b.lock.Lock()
+	defer b.lock.Unlock()
+	b.outbound += amount
+	b.outEvents++
 }
 
 // AddInbound add a number of bytes to the inbound total reported by the logger
 func (b *bytesSyncLogger) AddInbound(amount int) {
-	b.inboundChan <- amount
+	b.lock.Lock()
+	defer b.lock.Unlock()
+	b.inbound += amount
+	b.inEvents++
 }
 
 // ThroughputSummary view a formatted summary of the throughput totals
 func (b *bytesSyncLogger) ThroughputSummary() string {
-	inbound := b.inbound
-	outbound := b.outbound
-
-	inbound, inUnit := formatTraffic(inbound)
-	outbound, outUnit := formatTraffic(outbound)
+	b.lock.Lock()
+	defer b.lock.Unlock()
+	inbound, inUnit := formatTraffic(b.inbound)
+	outbound, outUnit := formatTraffic(b.outbound)
 
 	t := time.Now()
 	return fmt.Sprintf("Traffic throughput (up|down): %d %s|%d %s -- (%d OnMessages, %d Sends, over %d seconds)", inbound, inUnit, outbound, outUnit, b.outEvents, b.inEvents, int(t.Sub(b.start).Seconds()))
 }
 
-func (b *bytesSyncLogger) GetStat() (in int, out int) { return b.inbound, b.outbound }
+func (b *bytesSyncLogger) GetStat() (in int, out int) {
+	b.lock.Lock()
+	defer b.lock.Unlock()
+	return b.inbound, b.outbound
+}
 
 func formatTraffic(amount int) (value int, unit string) {
 	value = amount
